@@ -237,8 +237,8 @@ def rownum(run, p):
     def numbers_rows(g):
         return any(isinstance(x, ast.Call) and norm(x.func).endswith('RangeIndex') for x in ast.walk(g.node))
     nums = [x for x in ast.walk(f.node) if isinstance(x, ast.Call) and norm(x.func).endswith('RangeIndex')]
-    # or a helper of the same class does the numbering: the call to it is where rows are numbered
-    nums += [c for c, ts, _k in p.calls(f) if isinstance(c, ast.Call) and any(g.cls is f.cls and g is not f and numbers_rows(g) for g, _ctx in ts)]
+    # or a helper (a method of the class, a function of the module) does the numbering: the call to it is where rows are numbered
+    nums += [c for c, ts, _k in p.calls(f) if isinstance(c, ast.Call) and ts and all(g is not f and g.mod is f.mod and numbers_rows(g) for g, _ctx in ts)]
     filters = []
     for s in ast.walk(f.node):
         # a row filter: frame[frame[<failure count column>] > 0], wherever it is used (assigned, passed on, returned)
